@@ -123,6 +123,23 @@ def goldens(rng):
         qname = b"".join(bytes([n]) + bytes([97 + (i % 26)]) * n for i, n in enumerate(labels)) + b"\0"
         msg = struct.pack("!HHHHHH", 0x4242, 0x8180, 1, 1, 0, 0) + qname + struct.pack("!HH", 1, 1) + bytes([0xc0, 12]) + struct.pack("!HHIH", 5, 1, 60, 2) + bytes([0xc0, 12])
         out.append(("dns_name_%d_%d" % (len(labels), sum(labels)), ether(m1, m2, 0x0800, ipv4(a4, b4, 17, lambda ps: udp(53, 4000, msg, ps)))))
+    # short DNS responses whose LAST record is of a fixed-size type (A, AAAA) or ends in a name (MX, NS): lies on the record
+    # length then make the decoder want more than the message holds
+    q = bytes([1, 97, 2, 98, 99, 0]) + struct.pack("!HH", 1, 1)
+    ptr = bytes([0xc0, 12])
+    rr = lambda t, rdata: ptr + struct.pack("!HHIH", t, 1, 60, len(rdata)) + rdata
+    tails = {"a": rr(1, bytes([192, 0, 2, 1])), "aaaa": rr(28, a6), "mx": rr(15, struct.pack("!H", 10) + bytes([2, 109, 120]) + ptr),
+             "ns": rr(2, bytes([2, 110, 115]) + ptr), "cname_a": rr(5, bytes([1, 120]) + ptr) + rr(1, bytes([198, 51, 100, 7]))}
+    # ... and records whose length field is honest but too short for their type, at the very end of the message
+    for k in (0, 1, 2, 3):
+        tails["a_short%d" % k] = rr(1, bytes([192, 0, 2, 1])[:k])
+        tails["aaaa_short%d" % (4 * k)] = rr(28, a6[:4 * k])
+    tails["mx_short1"] = rr(15, bytes([0]))
+    for name, tail in tails.items():
+        for sect in (1, 3):      # the record(s) in the answer / in the additional section
+            cnt = 2 if name == "cname_a" else 1
+            hdr = struct.pack("!HHHHHH", 0x5151, 0x8180, 1, cnt if sect == 1 else 0, 0, cnt if sect == 3 else 0)
+            out.append(("dns_last_%s_s%d" % (name, sect), ether(m1, m2, 0x0800, ipv4(a4, b4, 17, lambda ps, m=hdr + q + tail: udp(53, 4000, m, ps)))))
     return out
 
 
